@@ -221,20 +221,19 @@ def gen_hydro(trees):
     gea = calls_in(fn, 'get_edge_attributes')
     if not (len(sw) == 1 and len(cn) == 1 and len(gea) == 1):
         raise Unsupported('squash_atoms changed shape')
-    if ast.unparse(sw[0].func.value) != 'bonding[0]' or len(sw[0].args) != 1:
+    if not (isinstance(sw[0].func.value, ast.Subscript) and isinstance(sw[0].func.value.slice, ast.Constant)
+            and sw[0].func.value.slice.value == 0) or len(sw[0].args) != 1:
         raise Unsupported('squash_atoms tests %s' % ast.unparse(sw[0]))
     prefix = const(sw[0].args[0], str, 'squash prefix')
     edge_attr = const(gea[0].args[1], str, 'edge attribute of squash_atoms')
-    if [ast.unparse(a) for a in cn[0].args] != ['self.molecule', 'node_to_keep', 'node_to_remove'] \
-            or [k.arg for k in cn[0].keywords] != ['self_loops']:
+    if len(cn[0].args) != 3 or [k.arg for k in cn[0].keywords] != ['self_loops']:
         raise Unsupported('arguments of contracted_nodes changed')
     self_loops = const(kw(cn[0], 'self_loops', 'contracted_nodes'), bool, 'self_loops')
     aug = [n for n in ast.walk(fn) if isinstance(n, ast.AugAssign)]
     aug.sort(key=lambda n: n.lineno)
     names = []
     for a in aug:
-        if not (isinstance(a.op, ast.Add) and isinstance(a.target, ast.Subscript)
-                and ast.unparse(a.target.value) == 'self.molecule.nodes[node_to_keep]'):
+        if not (isinstance(a.op, ast.Add) and isinstance(a.target, ast.Subscript)):
             raise Unsupported('augmented assignment in squash_atoms changed shape')
         nm = const(a.target.slice, str, 'concatenated attribute')
         names.append(nm)
